@@ -25,7 +25,7 @@ RULE = ("cutting-stock instances (roll width 5-20, 1-4 piece sizes <= width with
         "solve_bp with default options, plus a small stream with max_iter in 0..3 and one with initial columns "
         "that cannot cover the demands (excluded region); non-trivial = the run generated >= 1 column; distinct "
         "by canonical (function, instance, options)")
-TIMEOUT = 20.0
+TIMEOUT = 8.0
 USABLE = ("OPTIMAL", "FEASIBLE")
 
 
@@ -74,20 +74,31 @@ def gen_cols(rng, feasible_init=True):
 
 
 def edge_cases():
-    base = {"mode": "cs", "cols": [], "init": []}
-    # the witnesses of DESIGN §4 C17 / §5
-    yield {**base, "W": 7, "sizes": [2, 1], "demands": [1, 4]}
-    yield {**base, "W": 14, "sizes": [3, 4], "demands": [2, 2]}
-    yield {**base, "W": 7, "sizes": [3, 1, 3], "demands": [3, 5, 3]}
+    """Witnesses of the defects of the unchanged tree first (one per class, so that each is
+    reported before the per-run cap on written replays), then hand-written corner cases."""
+    base = {"mode": "cs", "cols": [], "init": [], "opts": {}}
+    # solve_bp: 2 rolls reported OPTIMAL, 1 suffices (DESIGN §4 C17)
+    yield {**base, "fn": "solve_bp", "W": 7, "sizes": [2, 1], "demands": [1, 4]}
+    # solve_bp: objective 0.9999999999999999
+    yield {**base, "fn": "solve_bp", "W": 14, "sizes": [3, 4], "demands": [2, 2]}
+    # solve_bp: plan missing a demand presented as OPTIMAL (artificial variable left basic)
+    yield {"mode": "cols", "W": 0, "sizes": [], "demands": [5, 3, 1], "init_feasible": True, "fn": "solve_bp",
+           "opts": {}, "init": [[2, 0, 0], [0, 2, 0], [0, 0, 1]],
+           "cols": [[2, 0, 0], [0, 2, 0], [0, 0, 1], [0, 3, 0], [2, 0, 1], [0, 2, 1], [1, 2, 0], [0, 1, 1]]}
+    # solve_cg: column generation cut off by max_iter, LP value of the restricted master used as a bound
+    yield {**base, "fn": "solve_cg", "W": 14, "sizes": [5, 3, 3, 8], "demands": [5, 4, 3, 2], "opts": {"max_iter": 1}}
+    # solve_bp: 1000 identical master LPs per node (pricing returns a column already in the pool)
+    yield {**base, "fn": "solve_bp", "W": 7, "sizes": [3, 1, 3], "demands": [3, 5, 3]}
+    yield {**base, "fn": "solve_bp", "W": 9, "sizes": [3, 3, 1, 1], "demands": [1, 6, 1, 1], "opts": {"max_iter": 0}}
+    del base["opts"]
     yield {**base, "W": 17, "sizes": [1, 1], "demands": [5, 1]}
     yield {**base, "W": 5, "sizes": [5], "demands": [0]}
     yield {**base, "W": 5, "sizes": [5], "demands": [6]}
     yield {**base, "W": 20, "sizes": [1, 1, 1, 1], "demands": [6, 6, 6, 6]}
     yield {**base, "W": 10, "sizes": [3, 3], "demands": [2, 0]}
-    # plan missing a demand presented as OPTIMAL (artificial variable left basic)
-    yield {"mode": "cols", "W": 0, "sizes": [], "demands": [5, 3, 1], "init_feasible": True,
-           "cols": [[2, 0, 0], [0, 2, 0], [0, 0, 1], [0, 3, 0], [2, 0, 1], [0, 2, 1], [1, 2, 0], [0, 1, 1]],
-           "init": [[2, 0, 0], [0, 2, 0], [0, 0, 1]]}
+    yield {**base, "W": 12, "sizes": [3, 4, 3], "demands": [0, 4, 5]}
+    yield {**base, "W": 7, "sizes": [2, 1], "demands": [1, 4]}
+    yield {**base, "W": 14, "sizes": [3, 4], "demands": [2, 2]}
 
 
 def expand(inst, rng=None):
@@ -185,6 +196,12 @@ def to_request(case, out):
 
 def judge(ctx, case, out, reply):
     fn = case["fn"]
+
+    def fail(function, klass, what, rep):
+        # count every failing clause by class, also beyond the cap on written replays
+        ctx.count(f"fail:{function}:{klass}")
+        return ctx.fail(function, klass, what, rep)
+
     rep = {"case": case, "impl": out, "model": reply}
     opt, plan_ok, parts, rolls, dual = reply
     tag = ":max_iter" if "max_iter" in case["opts"] else ""
@@ -194,7 +211,7 @@ def judge(ctx, case, out, reply):
              sorted(case["opts"].items())]
     if out[0] == "timeout":
         ctx.count("timeouts")
-        ctx.fail(fn, "timeout", f"no result within {TIMEOUT:.0f} s (the exact optimum takes the model < 1 s)", rep)
+        fail(fn, "timeout", f"no result within {TIMEOUT:.0f} s (the exact optimum takes the model < 1 s)", rep)
         ctx.case(canon, False)
         return
     if out[0] != "ok":
@@ -203,34 +220,34 @@ def judge(ctx, case, out, reply):
         if excluded:
             ctx.count("excluded_region_hits")
         else:
-            ctx.fail(fn, "raises:" + kind, f"valid instance raised: {out[1][:200]}", rep)
+            fail(fn, "raises:" + kind, f"valid instance raised: {out[1][:200]}", rep)
         ctx.case(canon, False)
         return
     r = out[1]
     st = r["status"]
     ctx.count(f"status:{fn}:{st}")
     if not r["demands_unchanged"]:
-        ctx.fail(fn, "input_modified", "the demands list was modified", rep)
+        fail(fn, "input_modified", "the demands list was modified", rep)
     if st in USABLE:
         if r["sol"] is None or r["sol"] == "non-integer-count":
-            ctx.fail(fn, "usable_without_plan", f"status {st} with solution {r['sol']!r}", rep)
+            fail(fn, "usable_without_plan", f"status {st} with solution {r['sol']!r}", rep)
         elif not plan_ok:
             f_ok, c_ok, o_ok = parts
             if not f_ok:
-                ctx.fail(fn, "pattern_not_admissible" + tag,
+                fail(fn, "pattern_not_admissible" + tag,
                          "a pattern of the plan does not fit the roll / is not a column of the instance", rep)
             if not c_ok:
-                ctx.fail(fn, "demand_missed" + tag,
+                fail(fn, "demand_missed" + tag,
                          f"status {st} but the verified checker finds an unmet demand (plan {r['sol']})", rep)
             if not o_ok:
-                ctx.fail(fn, "objective_not_rolls" + tag,
+                fail(fn, "objective_not_rolls" + tag,
                          f"objective {r['obj_repr']} is not the number of rolls used ({rolls})", rep)
         else:
             ctx.count("cert_checked_impl")
             if opt is None or rolls < opt:
                 raise Infra(f"checker accepted a plan with {rolls} rolls below the proved optimum {opt}: {case}")
             if st == "OPTIMAL" and rolls != opt:
-                ctx.fail(fn, "optimal_not_minimal" + tag,
+                fail(fn, "optimal_not_minimal" + tag,
                          f"status OPTIMAL with {rolls} rolls; the proved minimum is {opt}", rep)
             if st == "OPTIMAL" and rolls == opt:
                 ctx.count("optimal_confirmed")
